@@ -296,6 +296,72 @@ func safeDecimalParse(s string) (d decimal.Decimal, err error) {
 	return decimal.NewFromString(s)
 }
 
+// anyBackTerm: what the decoder's WithProtoToAny conversion answers for every Any of the message:
+// (type name, payload JSON in the model's canonical print, proto bytes | None).
+func anyBackTerm(m protoreflect.Message) string {
+	var parts []string
+	var walk func(m protoreflect.Message)
+	walk = func(m protoreflect.Message) {
+		name := m.Descriptor().FullName()
+		if name == "google.protobuf.Any" || name == "j5.types.any.v1.Any" {
+			fs := m.Descriptor().Fields()
+			var tn string
+			var embedded []byte
+			if name == "google.protobuf.Any" {
+				tn = strings.TrimPrefix(m.Get(fs.ByName("type_url")).String(), "type.googleapis.com/")
+			} else {
+				tn = m.Get(fs.ByName("type_name")).String()
+				if m.Has(fs.ByName("j5_json")) {
+					embedded = m.Get(fs.ByName("j5_json")).Bytes()
+				}
+			}
+			if embedded == nil {
+				if _, payload, err := anyPayloadMsg(m); err == nil {
+					if o := encodeMsg(theCodec, payload); o.Kind == "ok" {
+						embedded = o.Out
+					}
+				}
+			}
+			if embedded == nil {
+				return
+			}
+			out := "None"
+			if mt, err := resolver.FindMessageByName(protoreflect.FullName(tn)); err == nil {
+				dst := mt.New()
+				if e, p := decodeMsg(anyCodec, embedded, dst); e == nil && p == nil {
+					if b, err := proto.Marshal(dst.Interface()); err == nil {
+						out = "(Some " + codecgen.BytesTerm(string(b)) + ")"
+					}
+				}
+			}
+			parts = append(parts, fmt.Sprintf("(%s, %s, %s)", codecgen.BytesTerm(tn), codecgen.BytesTerm(string(canonPrint(embedded))), out))
+			return
+		}
+		m.Range(func(fd protoreflect.FieldDescriptor, v protoreflect.Value) bool {
+			if fd.IsMap() {
+				if fd.MapValue().Kind() != protoreflect.MessageKind {
+					return true
+				}
+			} else if fd.Kind() != protoreflect.MessageKind {
+				return true
+			}
+			switch {
+			case fd.IsList():
+				for i := 0; i < v.List().Len(); i++ {
+					walk(v.List().Get(i).Message())
+				}
+			case fd.IsMap():
+				v.Map().Range(func(_ protoreflect.MapKey, mv protoreflect.Value) bool { walk(mv.Message()); return true })
+			default:
+				walk(v.Message())
+			}
+			return true
+		})
+	}
+	walk(m)
+	return "[" + strings.Join(parts, "; ") + "]"
+}
+
 func hasPBAny(m protoreflect.Message) bool {
 	w := false
 	var walk func(m protoreflect.Message)
@@ -370,11 +436,16 @@ func (er *encRun) roundTrip(stream string, t *target, m protoreflect.Message, fl
 		res.Fail(vh.Failure{Case: caseNo, Stream: stream, Sig: "C01 encoding a representable message fails", Clause: "encoding a representable message succeeds", Input: in, Got: o.Err})
 		return
 	}
-	// model case: default codec both ways
+	// model case: the default codec both ways; a message holding a google.protobuf.Any is decoded with
+	// WithProtoToAny on both sides (the model gets the table of the payload conversions)
 	{
 		facts := factsOf(m)
 		mb := t.New()
-		derr, dpan := decodeMsg(theCodec, o.Out, mb)
+		mc, abackTerm := theCodec, "None"
+		if hasPBAny(m) {
+			mc, abackTerm = anyCodec, "(Some "+anyBackTerm(m)+")"
+		}
+		derr, dpan := decodeMsg(mc, o.Out, mb)
 		backTerm := "None"
 		if dpan == nil && derr == nil {
 			backTerm = "(Some " + msgTermCanon(mb) + ")"
@@ -386,9 +457,10 @@ func (er *encRun) roundTrip(stream string, t *target, m protoreflect.Message, fl
 			if !inTheoremShape(t.Env) {
 				res.Count("env_outside_theorem_hypotheses_exposed_oneof_in_flattened_object")
 			}
-			er.em.cf.Terms = append(er.em.cf.Terms, fmt.Sprintf("CRound %s %s %s %s %s %s %s %s %s %s %s %s", t.Name, vh.BoolTerm(inTheoremShape(t.Env)), codecgen.BytesTerm(t.Env.Root), msgTerm(m),
+			er.em.cf.Terms = append(er.em.cf.Terms, fmt.Sprintf("CRound %s %s %s %s %s %s %s %s %s %s %s %s %s", t.Name, vh.BoolTerm(inTheoremShape(t.Env)), codecgen.BytesTerm(t.Env.Root), msgTerm(m),
 				facts.floatsTerm(), facts.innersTerm(), pf, pt, vh.BoolTerm(facts.maxMap <= 1), codecgen.BytesTerm(string(o.Out)), backTerm,
-				vh.BoolTerm(facts.kinds["any"] == 0))) // messages are compared with dec's model unless an Any is inside (its j5_json is stored in another canonical spelling)
+				vh.BoolTerm(facts.kinds["any"] == 0), // messages are compared with dec's model unless an Any is inside (its j5_json is stored in another canonical spelling)
+				abackTerm))
 			res.Cases = append(res.Cases, vh.CaseRec{Case: caseNo, Stream: stream, Input: in, Impl: map[string]any{"out": short(o.Out), "decode_err": fmt.Sprint(derr)}})
 		}
 	}
